@@ -81,7 +81,7 @@ func main() {
 	prop := flag.Arg(0)
 	var checks []*run.Check
 	for _, c := range l.Checks {
-		if c.Prop != prop {
+		if !hasProp(c.Prop, prop) {
 			continue
 		}
 		if c.Tier == "thorough" && *tier != "thorough" {
@@ -219,6 +219,16 @@ func main() {
 		fmt.Printf("OK property=%s tier=%s harnesses=%d wall=%.1fs\n", prop, *tier, len(results), time.Since(t0).Seconds())
 	}
 	os.Exit(exit)
+}
+
+// a harness may serve several properties: //verif:check C19,C08 ...
+func hasProp(list, prop string) bool {
+	for _, p := range strings.Split(list, ",") {
+		if p == prop {
+			return true
+		}
+	}
+	return false
 }
 
 func sum(m map[string]int) int {
